@@ -141,15 +141,23 @@ package identity
 
 // Building the OpenPGP entity used to verify (or make) signatures must work for every key of a stored
 // identity: keys read from git carry no private part (C07, C08).
+// entityKey: the key an OpenPGP entity was built from (definition: set by PGPEntity).
+//@ ghost var entityKey map[*openpgp.Entity]*Key
 //@ func (*Key).PGPEntity
 //@   props C07 C08
 //@   nopanic
 //@   maypanic
-//@   modifies nothing
+//@   modifies entityKey
 //@   opt trusted_frame
 //@   requires k != nil && k.public != nil
+//@   ensures [fresh-entity] result != nil && fresh(result)
+//@   defines [entity-of-key] entityKey == update(old(entityKey), result, k)
 
 // Identities handed out by the resolvers have been validated: their keys are well formed.
+// keysInForce(i, clock, t): the keys identity i declares in force at logical time t of the named clock, i.e.
+// what its ValidKeysAtTime returns ((*Identity).ValidKeysAtTime is verified against the version history above).
+//@ spec func keysInForce(i Interface, clock string, t lamport.Time) []*Key
 //@ func Interface.ValidKeysAtTime
 //@   modifies nothing
+//@   defines [keys-in-force] result == keysInForce(recv, clockName, time)
 //@   ensures forall k int :: { result[k] } 0 <= k && k < len(result) ==> result[k] != nil && result[k].public != nil
